@@ -701,6 +701,8 @@ class ReactionSystem(object):
         if cstr_fr_fc:
             fr_key, fc = cstr_fr_fc
             for sk, fck in fc.items():
+                if substance_keys is not None and sk not in substance_keys:
+                    continue
                 feed = variables[fr_key] * (variables[fck] - variables[sk])
                 result[sk] = result[sk] + feed if sk in result else feed
         return result
